@@ -1,5 +1,5 @@
 #!/usr/bin/env python3
-"""Regenerates /verif/MANIFEST.json from tools/claims.py (run by hand after adding a property)."""
+"""Regenerates /verif/MANIFEST.json from tools/propcfg/Cxx.py (via props.py / claims.py); run by hand after changing a CLAIM."""
 import json, os, sys
 sys.path.insert(0, os.path.dirname(os.path.abspath(__file__)))
 from claims import CLAIMS, NOT_YET
